@@ -126,6 +126,10 @@ def _impl(tier, seed, search):
             sh_ = sh_ / np.linalg.norm(sh_) * max(sc, 1.0) * 10.0 ** g.uniform(-4, -2)
             ok2, c = L.noraise('==(shifted)', lambda: (l == Plucker.PQ(P + sh_, Q + sh_), l != Plucker.PQ(P + sh_, Q + sh_)), dict(inp, shift=sh_), 'Plucker == on a shifted parallel copy')
             if ok2: L.check('==:shifted-copy', (not bool(c[0])) and bool(c[1]), dict(inp, shift=sh_), 'a line and a parallel copy shifted sideways compare equal', sig='==:shifted')
+            sh2_ = sh_ / np.linalg.norm(sh_) * max(sc, 1.0) * 10.0 ** g.uniform(-5.6, -5.2)      # a few 1e-6 of the data magnitude: still far above 1e-9
+            ok2, c = L.noraise('==(shifted, small)', lambda: (l == Plucker.PQ(P + sh2_, Q + sh2_), l != Plucker.PQ(P + sh2_, Q + sh2_)), dict(inp, shift=sh2_), 'Plucker == on a slightly shifted parallel copy')
+            if ok2 and sc <= 3: L.check('==:shifted-copy(small)', (not bool(c[0])) and bool(c[1]), dict(inp, shift=sh2_),     # (lines near the origin: the test's radial resolution falls with |moment| / |direction|)
+                                          'a line and a parallel copy shifted sideways by a few 1e-6 of the data magnitude compare equal', sig='==:shifted')
         off = np.cross(d / np.linalg.norm(d), inputs.unit_axis(g)) * float(g.uniform(0.5, 3))
         if np.linalg.norm(off) > 0.1 and sc <= 100:
             lp = Plucker.PQ(P + off, Q + off)
